@@ -27,32 +27,60 @@ pub fn render(ops: &[u64]) -> String {
     ops.iter().map(|o| format!("{}({:?})", if o % 2 == 0 { "get_or_intern" } else { "get" }, STRS[(o / 2) as usize])).collect::<Vec<_>>().join(" ")
 }
 
-fn key(i: usize) -> NonZeroU32 {
-    NonZeroU32::new(i as u32 + 1).unwrap()
+/// The oracle: the strings interned so far, each with the key the interner handed out for it the
+/// first time. Which numbers are used as keys is the interner's business (recorded as an outcome
+/// class); the property demands equal keys exactly for equal strings, and that every issued key
+/// resolves to its string.
+type Model = Vec<(String, NonZeroU32)>;
+
+fn key_of(model: &Model, s: &str) -> Option<NonZeroU32> {
+    model.iter().find(|m| m.0 == s).map(|m| m.1)
 }
 
-/// resolve of every issued key, of the first unissued key and of a far key; get of every string.
-fn observe<S: BuildHasher>(it: &Interner<NonZeroU32, S>, model: &[String], when: &str) -> Result<(), Mismatch> {
-    for (i, m) in model.iter().enumerate() {
-        let got = it.resolve(key(i));
+/// resolve of every issued key; get of every string.
+fn observe<S: BuildHasher>(it: &Interner<NonZeroU32, S>, model: &Model, when: &str) -> Result<(), Mismatch> {
+    for (m, k) in model.iter() {
+        let got = it.resolve(*k);
         if got != Some(m.as_str()) {
-            return Err(mismatch(format!("resolve({}) = Some({m:?})", i + 1), format!("{got:?}"), format!("resolve of an issued key {when}")));
-        }
-    }
-    for k in [model.len(), model.len() + 1, u32::MAX as usize - 1] {
-        let got = it.resolve(key(k));
-        if got.is_some() {
-            return Err(mismatch(format!("resolve({}) = None", k + 1), format!("{got:?}"), format!("resolve of a key that was never issued {when}")));
+            return Err(mismatch(format!("resolve({k}) = Some({m:?})"), format!("{got:?}"), format!("resolve of an issued key {when}")));
         }
     }
     for s in STRS {
-        let want = model.iter().position(|m| m == s).map(key);
+        let want = key_of(model, s);
         let got = it.get(s);
         if got != want {
-            return Err(mismatch(format!("get({s:?}) = {want:?}"), format!("{got:?}"), format!("get {when}")));
+            return Err(mismatch(format!("get({s:?}) = {want:?}"), format!("{got:?}"), format!("get {when} (an interned string has the key it was given, any other string has none)")));
         }
     }
     Ok(())
+}
+
+/// Recorded, not judged (the property does not speak about keys that were never issued, nor about
+/// which numbers are used): what resolve does with unissued keys, and whether keys are 1, 2, 3, ...
+fn record_incidentals<S: BuildHasher>(it: &Interner<NonZeroU32, S>, model: &Model, acc: &mut Acc) {
+    let consecutive = model.iter().enumerate().all(|(i, m)| m.1.get() as usize == i + 1);
+    acc.class(if consecutive { "interner: keys are 1, 2, 3, ... in order of first interning" } else { "interner: keys are not consecutive from 1 (recorded, not judged)" });
+    let max = model.iter().map(|m| m.1.get()).max().unwrap_or(0);
+    let mut some = false;
+    let mut panicked = false;
+    for k in [max.saturating_add(1), max.saturating_add(2), u32::MAX] {
+        let k = NonZeroU32::new(k).unwrap();
+        if model.iter().any(|m| m.1 == k) {
+            continue;
+        }
+        match vcore::catch(|| it.resolve(k).is_some()) {
+            Ok(true) => some = true,
+            Ok(false) => {}
+            Err(_) => panicked = true,
+        }
+    }
+    acc.class(if panicked {
+        "interner: resolve of a never-issued key panics (recorded, not judged)"
+    } else if some {
+        "interner: resolve of a never-issued key returns Some (recorded, not judged)"
+    } else {
+        "interner: resolve of a never-issued key returns None"
+    });
 }
 
 fn roundtrip<S: BuildHasher + Default>(it: Interner<NonZeroU32, S>) -> Result<Interner<NonZeroU32, S>, Mismatch> {
@@ -63,7 +91,7 @@ fn roundtrip<S: BuildHasher + Default>(it: Interner<NonZeroU32, S>) -> Result<In
 /// One execution: the history `ops` with a serde round trip before op number `serde_at` (== len: at the end).
 pub fn check<S: BuildHasher + Default>(ops: &[u64], serde_at: Option<usize>, constant: bool, acc: &mut Acc) -> Result<(), Mismatch> {
     let mut it: Interner<NonZeroU32, S> = Default::default();
-    let mut model: Vec<String> = vec![];
+    let mut model: Model = vec![];
     let mut deserialised = false;
     observe(&it, &model, "on the empty interner")?;
     for (i, op) in ops.iter().enumerate() {
@@ -73,20 +101,23 @@ pub fn check<S: BuildHasher + Default>(ops: &[u64], serde_at: Option<usize>, con
             observe(&it, &model, &format!("after the serde round trip before step {i}"))?;
         }
         let s = STRS[(op / 2) as usize];
-        let known = model.iter().position(|m| m == s);
-        if constant && model.iter().filter(|m| m.as_str() != s).count() >= 2 {
+        let known = key_of(&model, s);
+        if constant && model.iter().filter(|m| m.0 != s).count() >= 2 {
             acc.count("interner_lookup_in_bucket_with_two_other_strings");
         }
         if op % 2 == 0 {
-            let want = match known {
-                Some(p) => {
+            let got = it.get_or_intern(s);
+            match known {
+                Some(k) => {
                     if deserialised {
                         acc.count("interner_existing_string_after_deserialise");
                     }
-                    p
+                    if got != k {
+                        return Err(mismatch(format!("get_or_intern({s:?}) = {k}, the key this string was given before"), format!("{got}"), format!("equal strings get equal keys (step {i})")));
+                    }
                 }
                 None => {
-                    let buffer: String = model.concat();
+                    let buffer: String = model.iter().map(|m| m.0.as_str()).collect();
                     if !s.is_empty() && buffer.contains(s) {
                         acc.count("interner_new_string_already_occurs_in_buffer");
                     }
@@ -96,26 +127,25 @@ pub fn check<S: BuildHasher + Default>(ops: &[u64], serde_at: Option<usize>, con
                     if deserialised {
                         acc.count("interner_new_string_after_deserialise");
                     }
-                    model.push(s.to_string());
-                    model.len() - 1
+                    if let Some(other) = model.iter().find(|m| m.1 == got) {
+                        return Err(mismatch(format!("get_or_intern({s:?}) = a key no other string has"), format!("{got}, the key of {:?}", other.0), format!("different strings get different keys (step {i})")));
+                    }
+                    model.push((s.to_string(), got));
                 }
-            };
-            let got = it.get_or_intern(s);
-            if got != key(want) {
-                return Err(mismatch(format!("get_or_intern({s:?}) = {}", want + 1), format!("{}", got.get()), format!("key returned at step {i}")));
             }
         } else {
             let got = it.get(s);
-            if got != known.map(key) {
-                return Err(mismatch(format!("get({s:?}) = {:?}", known.map(|p| p + 1)), format!("{got:?}"), format!("get at step {i}")));
+            if got != known {
+                return Err(mismatch(format!("get({s:?}) = {known:?}"), format!("{got:?}"), format!("get at step {i}")));
             }
         }
         observe(&it, &model, &format!("after step {i}"))?;
     }
     if serde_at == Some(ops.len()) {
-        let it = roundtrip(it)?;
+        it = roundtrip(it)?;
         observe(&it, &model, "after the final serde round trip")?;
     }
+    record_incidentals(&it, &model, acc);
     Ok(())
 }
 
